@@ -31,6 +31,7 @@ func runC16(c *core.Ctx) {
 	c.RuleDoc("R16.11", "no file system handed out derives from a one-time route resolution (= R07.4)")
 	c.RuleDoc("R16.12", "a paging ReadDir moves its cursor by exactly the number of entries of the page it returns")
 	c.RuleDoc("R16.13", "a directory entry's Type() answers type bits only (FileMode.Type() or a delegate's Type())")
+	c.RuleDoc("R16.14", "the cache's directory handle lists the source in every call and cuts its pages from that listing (= R10.4)")
 	c.RuleDoc("R16.9", "the cursor of a paging ReadDir moves only for a page that is returned")
 	c.RuleDoc("R16.8", "the mount table matches names against mount points on path-element boundaries (listed siblings are Stat'ed in the file system that listed them)")
 	c.RuleDoc("R16.7", "the page end is computed without integer overflow")
@@ -80,6 +81,8 @@ func runC16(c *core.Ctx) {
 		// derives from a one-time route resolution (mount points below it would drop out of its listings)
 		if sh := findCacheShape(p); sh != nil && sh.stat != nil {
 			c.WithAlias(map[string]string{"R10.3": "R16.10"}, func() { r10Memo(c, p, sh) })
+			// R16.14 (= R10.4): the cache's directory handle cuts its pages from the source's listing of this very call
+			c.WithAlias(map[string]string{"R10.4": "R16.14"}, func() { r10Dir(c, p, sh) })
 		}
 		c.WithAlias(map[string]string{"R07.4": "R16.11"}, func() { r07Routes(c, p, p.SrcFuncs(), "") })
 		// R16.6b: the in-memory store enumerates children by key prefix on element boundaries only
@@ -97,6 +100,7 @@ func runC16(c *core.Ctx) {
 	c.Floor("R16.9", 2)
 	c.Floor("R16.12", 2)
 	c.Floor("R16.13", 1)
+	c.Floor("R16.14", 3)
 	c.Floor("R16.10", 1)
 	c.Floor("R16.11", 8)
 	c.Floor("R16.1", 2)
@@ -284,75 +288,17 @@ func r16Window(c *core.Ctx, p *load.Program, tk string, fn *ssa.Function, win []
 		}
 	}
 	// ---- R16.2 bounds of the listing slices ----
-	type sumRec struct{ s, a, b ssax.Term }
-	var sums, diffs []sumRec
-	var canon ssax.Canon
-	canon = func(v ssa.Value) (ssax.Term, bool) {
-		v = ssax.StripIntConv(v)
-		if k, ok := ssax.ConstInt(v); ok {
-			return ssax.Term{IsConst: true, Const: k}, true
-		}
-		if isCursorLoad(v) {
-			return ssax.Term{Sym: "CUR"}, true
-		}
-		if cl, ok := v.(*ssa.Call); ok && isLenCall(cl) {
-			return ssax.Term{Sym: "len:" + listName(cl.Call.Args[0])}, true
-		}
-		if pr, ok := v.(*ssa.Parameter); ok {
-			return ssax.Term{Sym: "p:" + pr.Name()}, true
-		}
-		if bo, ok := v.(*ssa.BinOp); ok && bo.Op == token.ADD {
-			a, _ := canon(bo.X)
-			b, _ := canon(bo.Y)
-			ts := func(t ssax.Term) string {
-				if t.IsConst {
-					return fmt.Sprint(t.Const)
-				}
-				return t.Sym
-			}
-			st := ssax.Term{Sym: "(" + ts(a) + "+" + ts(b) + ")"}
-			sums = append(sums, sumRec{st, a, b})
-			// the commuted reading too: a+b = b+a
-			sums = append(sums, sumRec{st, b, a})
-			return st, true
-		}
-		if bo, ok := v.(*ssa.BinOp); ok && bo.Op == token.SUB {
-			a, _ := canon(bo.X)
-			b, _ := canon(bo.Y)
-			ts := func(t ssax.Term) string {
-				if t.IsConst {
-					return fmt.Sprint(t.Const)
-				}
-				return t.Sym
-			}
-			dt := ssax.Term{Sym: "(" + ts(a) + "-" + ts(b) + ")"}
-			diffs = append(diffs, sumRec{dt, a, b})
-			return dt, true
-		}
-		return ssax.Term{Sym: "v:" + v.Name()}, true
-	}
-	axioms := func(b *ssax.Bounds) {
-		// A8: the cursor never goes negative (it starts at 0 and R16.3 checks what is stored into it)
-		b.Assert(ssax.Term{IsConst: true}, ssax.Term{Sym: "CUR"}, 0)
-		for i := 0; i < 2; i++ {
-			for _, sr := range sums {
-				b.Sum(sr.s, sr.a, sr.b)
-			}
-			for _, dr := range diffs {
-				b.Diff(dr.s, dr.a, dr.b)
-				// x < a - t  <=>  x + t < a, for a sum with the same t
-				for _, sr := range sums {
-					if sr.b == dr.b {
-						b.Couple(sr.s, sr.a, dr.s, dr.a)
-					}
-				}
-			}
-		}
-	}
+	canon, axioms := windowCanon(isCursorLoad, nil)
 	ord := ordinals{}
 	for _, s := range win {
 		k2 := tk + ".ReadDir|" + ord.next("window")
 		missing := windowBounds(s, canon, axioms)
+		if len(missing) > 0 {
+			// the window may be computed by a helper of the package: judged at the helper's returns
+			if viaHelper, ok := windowViaHelper(s, canon); ok {
+				missing = viaHelper
+			}
+		}
 		if len(missing) == 0 {
 			c.OK("R16.2", k2, p.Pos(s.Pos()), "window bounds entailed on every incoming path")
 		} else {
@@ -564,7 +510,12 @@ func nDecided(f ssax.Fact, n *ssa.Parameter) bool {
 // windowBounds checks 0 <= lo <= hi <= len(list) for a slice whose bounds may be phis: every feasible
 // combination of phi alternatives is checked under the facts of the edges that select them.
 func windowBounds(s *ssa.Slice, canon ssax.Canon, axioms func(*ssax.Bounds)) []string {
-	L := ssax.Term{Sym: "len:" + listName(s.X)}
+	return windowBoundsAt(s.Low, s.High, s, ssax.Term{Sym: "len:" + listName(s.X)}, canon, axioms)
+}
+
+// windowBoundsAt: which of 0 <= low, low <= high, high <= L are not entailed at `at` (phis of low/high expanded per
+// incoming edge with that edge's facts).
+func windowBoundsAt(low, high ssa.Value, at ssa.Instruction, L ssax.Term, canon ssax.Canon, axioms func(*ssax.Bounds)) []string {
 	zero := ssax.Term{IsConst: true}
 	type alt struct {
 		v     ssa.Value
@@ -596,14 +547,14 @@ func windowBounds(s *ssa.Slice, canon ssax.Canon, axioms func(*ssax.Bounds)) []s
 		}
 		return out
 	}
-	los, his := expand(s.Low, 0), expand(s.High, 0)
+	los, his := expand(low, 0), expand(high, 0)
 	missing := map[string]bool{}
 	for _, lo := range los {
 		for _, hi := range his {
 			if lo.blk != nil && lo.blk == hi.blk && lo.edge != hi.edge {
 				continue // phis of one block take their values from the same edge
 			}
-			facts := append(append(append([]ssax.Fact{}, ssax.FactsAtInstr(s)...), lo.facts...), hi.facts...)
+			facts := append(append(append([]ssax.Fact{}, ssax.FactsAtInstr(at)...), lo.facts...), hi.facts...)
 			if contradictory(facts) {
 				continue
 			}
@@ -804,10 +755,20 @@ func listingIsStable(p *load.Program, cl *ssa.Call, depth int) bool {
 }
 
 // r16NoOverflow (R16.7)
-func r16NoOverflow(c *core.Ctx, p *load.Program, tk string, fn *ssa.Function) {
-	nPrm := fn.Params[1]
-	isN := func(v ssa.Value) bool { return ssax.StripIntConv(v) == ssa.Value(nPrm) }
+func r16NoOverflow(c *core.Ctx, p *load.Program, tk string, root *ssa.Function) {
 	ord := ordinals{}
+	// ReadDir itself and the helpers it hands n to (the window arithmetic may live in one)
+	for _, body := range opBodies(root) {
+		nPrm := body.param(root.Params[1])
+		if nPrm == nil {
+			continue
+		}
+		r16NoOverflowIn(c, p, tk, root, body.fn, nPrm, ord)
+	}
+}
+
+func r16NoOverflowIn(c *core.Ctx, p *load.Program, tk string, root, fn *ssa.Function, nPrm *ssa.Parameter, ord ordinals) {
+	isN := func(v ssa.Value) bool { return ssax.StripIntConv(v) == ssa.Value(nPrm) }
 	ssax.Instrs(fn, func(ins ssa.Instruction) {
 		bo, ok := ins.(*ssa.BinOp)
 		if !ok || bo.Op != token.ADD {
@@ -1010,4 +971,129 @@ func r16EntryTypeIsTypeBits(c *core.Ctx, p *load.Program) {
 	if n == 0 {
 		c.Hard("anchor: DirEntry implementations with a Type method")
 	}
+}
+
+// windowCanon builds the canonicaliser and the axioms of the window-bounds check: the cursor is one symbol CUR (never
+// negative, A8), len(listing) one symbol per listing, sums and differences are coupled with their operands. lenSym, if
+// not nil, names further values that denote a listing's length (a helper's parameter, say).
+func windowCanon(isCursor func(ssa.Value) bool, lenSym func(ssa.Value) (string, bool)) (ssax.Canon, func(*ssax.Bounds)) {
+	type sumRec struct{ s, a, b ssax.Term }
+	var sums, diffs []sumRec
+	var canon ssax.Canon
+	ts := func(t ssax.Term) string {
+		if t.IsConst {
+			return fmt.Sprint(t.Const)
+		}
+		return t.Sym
+	}
+	canon = func(v ssa.Value) (ssax.Term, bool) {
+		v = ssax.StripIntConv(v)
+		if k, ok := ssax.ConstInt(v); ok {
+			return ssax.Term{IsConst: true, Const: k}, true
+		}
+		if isCursor(v) {
+			return ssax.Term{Sym: "CUR"}, true
+		}
+		if lenSym != nil {
+			if sym, ok := lenSym(v); ok {
+				return ssax.Term{Sym: sym}, true
+			}
+		}
+		if cl, ok := v.(*ssa.Call); ok && isLenCall(cl) {
+			return ssax.Term{Sym: "len:" + listName(cl.Call.Args[0])}, true
+		}
+		if pr, ok := v.(*ssa.Parameter); ok {
+			return ssax.Term{Sym: "p:" + pr.Name()}, true
+		}
+		if bo, ok := v.(*ssa.BinOp); ok && bo.Op == token.ADD {
+			a, _ := canon(bo.X)
+			b, _ := canon(bo.Y)
+			st := ssax.Term{Sym: "(" + ts(a) + "+" + ts(b) + ")"}
+			sums = append(sums, sumRec{st, a, b})
+			// the commuted reading too: a+b = b+a
+			sums = append(sums, sumRec{st, b, a})
+			return st, true
+		}
+		if bo, ok := v.(*ssa.BinOp); ok && bo.Op == token.SUB {
+			a, _ := canon(bo.X)
+			b, _ := canon(bo.Y)
+			dt := ssax.Term{Sym: "(" + ts(a) + "-" + ts(b) + ")"}
+			diffs = append(diffs, sumRec{dt, a, b})
+			return dt, true
+		}
+		return ssax.Term{Sym: "v:" + v.Name()}, true
+	}
+	axioms := func(b *ssax.Bounds) {
+		// A8: the cursor never goes negative (it starts at 0 and R16.3 checks what is stored into it)
+		b.Assert(ssax.Term{IsConst: true}, ssax.Term{Sym: "CUR"}, 0)
+		for i := 0; i < 2; i++ {
+			for _, sr := range sums {
+				b.Sum(sr.s, sr.a, sr.b)
+			}
+			for _, dr := range diffs {
+				b.Diff(dr.s, dr.a, dr.b)
+				// x < a - t  <=>  x + t < a, for a sum with the same t
+				for _, sr := range sums {
+					if sr.b == dr.b {
+						b.Couple(sr.s, sr.a, dr.s, dr.a)
+					}
+				}
+			}
+		}
+	}
+	return canon, axioms
+}
+
+// windowViaHelper: the bounds of listing[low:high] are the two results of one call of a helper of the package
+// ("readDirRange(cursor, len(listing), n)"). The check is made where the arithmetic is: at every return of the helper,
+// with the parameter that receives the cursor read as the cursor and the one that receives len(listing) as the length.
+// ok=false: not that shape.
+func windowViaHelper(s *ssa.Slice, canon ssax.Canon) (missing []string, ok bool) {
+	lo, ok1 := ssax.StripIntConv(s.Low).(*ssa.Extract)
+	hi, ok2 := ssax.StripIntConv(s.High).(*ssa.Extract)
+	if s.Low == nil || s.High == nil || !ok1 || !ok2 || lo.Tuple != hi.Tuple {
+		return nil, false
+	}
+	call, isCall := lo.Tuple.(*ssa.Call)
+	if !isCall {
+		return nil, false
+	}
+	h := ssax.StaticCallee(call)
+	if h == nil || h.Blocks == nil || h.Pkg != s.Parent().Pkg || len(h.Params) != len(call.Call.Args) {
+		return nil, false
+	}
+	L := "len:" + listName(s.X)
+	var curP, lenP *ssa.Parameter
+	for i, a := range call.Call.Args {
+		t, _ := canon(a)
+		switch t.Sym {
+		case "CUR":
+			curP = h.Params[i]
+		case L:
+			lenP = h.Params[i]
+		}
+	}
+	if lenP == nil {
+		return nil, false
+	}
+	hc, hax := windowCanon(func(v ssa.Value) bool { return curP != nil && v == ssa.Value(curP) }, func(v ssa.Value) (string, bool) {
+		if v == ssa.Value(lenP) {
+			return L, true
+		}
+		return "", false
+	})
+	miss := map[string]bool{}
+	for _, r := range ssax.Returns(h) {
+		if lo.Index >= len(r.Results) || hi.Index >= len(r.Results) {
+			return nil, false
+		}
+		for _, m := range windowBoundsAt(r.Results[lo.Index], r.Results[hi.Index], r, ssax.Term{Sym: L}, hc, hax) {
+			miss[m] = true
+		}
+	}
+	for m := range miss {
+		missing = append(missing, m)
+	}
+	sort.Strings(missing)
+	return missing, true
 }
